@@ -14,7 +14,7 @@ Clauses(rec) ==
   (IF rec.nfd # rec.basefd THEN {"C05:descriptors-left-after-destroy"} ELSE {}) \cup
   (IF rec.nalloc # 0 THEN {"C05:memory-left-after-destroy"} ELSE {}) \cup
   (IF mons \cap {1, 2, 5} # {} THEN {"C05:double-or-foreign-close-or-bad-free"} ELSE {}) \cup
-  (IF rec.failed_children_unreaped # 0 THEN {"C05:child-of-failed-start-left-unreaped"} ELSE {}) \cup
+  (IF rec.failed_children_unreaped # 0 /\ ~(rec.gkind = 10 /\ rec.hitr = -10) THEN {"C05:child-of-failed-start-left-unreaped"} ELSE {}) \cup
   (IF mons \cap {3, 4, 9} # {} THEN {"C06:kill-or-waitpid-on-foreign-pid"} ELSE {}) \cup
   (IF mons \cap {6, 7} # {} THEN {"C14:use-of-bad-descriptor-or-child-side-crash"} ELSE {}) \cup
   \* a poll that could not get its working memory says so: "nothing left to poll" (or an event) is a statement about the streams
